@@ -64,9 +64,18 @@ def strip_lean_comments(src):
     return "".join(out)
 
 
+def registered_ties(pid):
+    """source-level ties registered for this property in harness/ties.json: [{"module": "Tie_x", "theorem": "tie_x", "python": "mod.func"}]
+    (ties that Props/<pid>.lean imports itself are audited through Audit/<pid>.lean and need no entry here)"""
+    p = os.path.join(VERIF, "harness", "ties.json")
+    if not os.path.exists(p):
+        return []
+    return json.load(open(p)).get(pid, [])
+
+
 def import_closure(pid):
-    """Lean source files in the import closure of Props/<pid>.lean (project files only)."""
-    seen, todo = set(), ["BumpverVerif.Props.%s" % pid]
+    """Lean source files in the import closure of Props/<pid>.lean and of the property's registered ties (project files only)."""
+    seen, todo = set(), ["BumpverVerif.Props.%s" % pid] + ["BumpverVerif.Proofs.%s" % t["module"] for t in registered_ties(pid)]
     while todo:
         m = todo.pop()
         if m in seen:
@@ -103,6 +112,7 @@ class BuildResult:
         self.translator = None
         self.driver_ok = True
         self.failed_modules = []
+        self.failed_ties = []
 
 
 def run_translator():
@@ -191,6 +201,17 @@ def build_and_audit(pid, tier="quick"):
             res.stage = res.stage or "theorem-build"
             res.output += out
             res.failed_modules = sorted(set(re.findall(r"error: (?:\S*?/)?(BumpverVerif/\S+?\.lean)", out)))
+        # the property's registered source-level ties (generated definition = hand model), each its own obligation
+        ties = registered_ties(pid)
+        if ties:
+            rc, out = lake_build(["BumpverVerif.Proofs.%s" % t["module"] for t in ties])
+            if rc != 0:
+                res.ok = False
+                res.stage = res.stage or "tie-build"
+                res.output += out
+                failed = sorted(set(re.findall(r"error: (?:\S*?/)?(BumpverVerif/\S+?\.lean)", out)))
+                res.failed_modules = sorted(set(res.failed_modules) | set(failed))
+                res.failed_ties = [t for t in ties if any(("/" + t["module"] + ".lean") in f or ("F_" + t["module"][4:] + ".lean") in f for f in failed)] or ties
     finally:
         fcntl.flock(lockf, fcntl.LOCK_UN)
         lockf.close()
@@ -202,6 +223,18 @@ def build_and_audit(pid, tier="quick"):
             res.ok = False
             res.stage = "audit"
             res.output += txt
+        ties = registered_ties(pid)
+        if ties:
+            af = os.path.join(LEAN, ".lake", "verif-tie-audit-%s.lean" % pid)
+            with open(af, "w") as f:
+                f.write("".join("import BumpverVerif.Proofs.%s\n" % t["module"] for t in ties) + "open BV\n" +
+                        "".join("#print axioms %s\n" % t["theorem"] for t in ties))
+            p2 = subprocess.run(["lake", "env", "lean", af], cwd=LEAN, capture_output=True, text=True)
+            txt += "\n" + p2.stdout + p2.stderr
+            if p2.returncode != 0:
+                res.ok = False
+                res.stage = "audit"
+                res.output += p2.stdout + p2.stderr
         for m in re.finditer(r"'([^']+)' depends on axioms: \[([^\]]*)\]", txt.replace("\n", " ")):
             res.theorems[m.group(1)] = [a.strip() for a in m.group(2).split(",") if a.strip()]
         for m in re.finditer(r"'([^']+)' does not depend on any axioms", txt):
@@ -389,6 +422,9 @@ class Check:
         if b is not None and not b.ok:
             broken.append("build/audit stage '%s' failed: modules=%s bad_axioms=%s forbidden=%s" % (
                 b.stage, b.failed_modules, b.bad_axioms, b.forbidden[:5]))
+            for t in getattr(b, "failed_ties", []):
+                broken.append("source-level tie %s no longer checks: the Lean definition regenerated from %s is not (provably) the hand model any more" % (
+                    t["theorem"], t.get("python", "?")))
         if self.disagreements:
             broken.append("correspondence: %d disagreement(s) between model and implementation" % len(self.disagreements))
         if broken and not self.violations:
